@@ -1,20 +1,28 @@
 #!/bin/bash
 # development tool: tools/try_mutation.sh <patch.diff> [props...]   (default: all claimed properties)
-# applies the patch to /repo, builds the simulator, runs the quick sim tier of each property, reverts.
+# Works on scratch copies (outside /repo and /verif, removed afterwards): a copy of /repo's HEAD with
+# the patch applied and a copy of the simulator sources pointed at it. Runs the quick sim tier of each
+# property and reports DETECTED / silent.
 patch="$1"; shift
 props="${*:-C01 C02 C03 C04 C05 C06 C07 C08 C09 C10 C11 C12 C13 C14 C15 C16 C18 C19 C20}"
-cd /repo || exit 2
-git diff --quiet || { echo "repo not clean"; exit 2; }
-git apply "$patch" || { echo "patch does not apply"; exit 2; }
-trap 'git -C /repo checkout -- . ' EXIT
-(cd /verif/sim && CARGO_NET_OFFLINE=true cargo build --release --offline 2>&1 | grep -E "^error" -A8)
+S=${TRY_SCRATCH:-/tmp/tm}
+mkdir -p $S
+rm -rf $S/repo $S/sim/src
+mkdir -p $S/repo $S/sim
+git -C /repo archive HEAD | tar -x -C $S/repo
+(cd $S/repo && git init -q 2>/dev/null; git apply "$patch") || { echo "patch does not apply"; exit 2; }
+cp /repo/Cargo.lock $S/repo/ 2>/dev/null
+cp -r /verif/sim/src /verif/sim/Cargo.lock /verif/sim/.cargo $S/sim/ 2>/dev/null
+sed "s#path = \"/repo\"#path = \"$S/repo\"#" /verif/sim/Cargo.toml > $S/sim/Cargo.toml
+(cd $S/sim && CARGO_NET_OFFLINE=true cargo build --release --offline 2>&1 | grep -E "^error" -A8)
+SIM=$S/sim/target/release/sim
 out=$(mktemp -d)
 for p in $props; do
-    r=$(/verif/sim/target/release/sim run --property $p --tier quick --evidence $out/$p.json --replays $out/replays 2>&1)
+    r=$($SIM run --property $p --tier quick --evidence $out/$p.json --replays $out/replays 2>&1)
     if echo "$r" | grep -q "^VIOLATION"; then
         echo "$p: DETECTED  $(echo "$r" | grep '^violation:' | cut -c1-260)"
     else
-        echo "$p: silent    $(echo "$r" | grep -E '^sim: [0-9]' | sed 's/distinct.*foreign/foreign/' | cut -c1-120)"
+        echo "$p: silent    $(echo "$r" | grep -E '^sim: [0-9]' | sed 's/, [0-9]* distinct non-trivial.*states//' | cut -c1-120)"
     fi
 done
-rm -rf $out
+rm -rf $out $S/repo
